@@ -871,6 +871,32 @@ def unit_effects(prog, unit):
     return mut, pure
 
 
+def position_decl(f, pd):
+    """the variable that carries the position through the function: the parameter itself, or - when the parameter is never
+    written and is only ever read to initialise one local (`pos = idx;`) - that local"""
+    copies, other = set(), 0
+    for x in walk(f.body):
+        if x.get("k") == "assign" or (x.get("k") == "un" and x.get("op") in ("++", "--", "&")):
+            t = X.strip(x["ch"][0])
+            if t is not None and t.get("k") == "ref" and t.get("d") == pd:
+                return pd
+    for x in walk(f.body):
+        if x.get("k") == "ref" and x.get("d") == pd:
+            par = f.parent.get(x["i"])
+            while par is not None and par.get("k") in ("paren", "icast", "cast"):
+                par = f.parent.get(par["i"])
+            if par is not None and par.get("k") == "assign" and par.get("op") == "=" and X.strip(par["ch"][1]) is x and \
+                    (X.strip(par["ch"][0]) or {}).get("k") == "ref" and X.strip(par["ch"][0]).get("rk") == "local":
+                copies.add(X.strip(par["ch"][0])["d"])
+            elif par is not None and par.get("k") == "decl" and any(dc.get("init") is not None and X.strip(dc["init"]) is x for dc in par.get("decls", ())):
+                copies.update(dc["d"] for dc in par.get("decls", ()) if dc.get("init") is not None and X.strip(dc["init"]) is x)
+            else:
+                other += 1
+    if len(copies) == 1 and other == 0:
+        return next(iter(copies))
+    return pd
+
+
 def _norm_rule(chk, f, idxd, prog=None, unit=None):
     """N1: negative positions count from the end.  Decided with GHOSTPOS in the scenario `the position argument is negative`
     (a ghost symbol g0 holds the argument's value on entry): wherever the function reads the position variable other than to
@@ -881,19 +907,24 @@ def _norm_rule(chk, f, idxd, prog=None, unit=None):
     from .lin import Lin, entails, feasible
     mut, pure = unit_effects(prog, unit) if prog is not None else ({}, set())
     g = GhostPos(f, prog, mutators=mut, pure=pure)
+    pard = idxd
+    idxd = position_decl(f, pard)          # the local the position was copied into, if the parameter is only copied
+    vpar = Lin.sym("v%d" % pard)
     v, g0, L, L0 = Lin.sym("v%d" % idxd), Lin.sym("g0"), Lin.sym("len"), Lin.sym("l0")
     nassign = sum(1 for x in walk(f.body) if (x.get("k") == "assign" and (X.strip(x["ch"][0]) or {}).get("d") == idxd) or
                   (x.get("k") == "un" and x.get("op") in ("++", "--") and (X.strip(x["ch"][0]) or {}).get("d") == idxd))
     if g.cfg is None or idxd not in g.intvars:
         chk.ob("N1", f.name, "negative-index-normalised", False, loc=f.loc(f.body), detail="%s: position parameter not found" % f.name)
         return None
-    g.run(init=[L, v - g0, g0 - v, -g0 - 1, L - L0, L0 - L])     # l0: the length on entry (len itself changes in insert_at)
+    g.run(init=[L, vpar - g0, g0 - vpar, -g0 - 1, L - L0, L0 - L])     # l0: the length on entry (len itself changes in insert_at)
     bad = []
     nuse = [0]
 
     def vis(st, n, blk):
         if n.get("k") != "ref" or n.get("d") != idxd:
             return
+        if idxd != pard and not any(c_.coef("v%d" % idxd) for c_ in st):
+            return          # the copy has not been made yet (its own declaration)
         # context of this read
         cur, par = n, f.parent.get(n["i"])
         while par is not None:
@@ -976,7 +1007,7 @@ def check_positions(chk, prog, unit):
         return sites
 
     def idx_sym(f, pi):
-        return Lin.sym("v%d" % f.params[pi]["d"])
+        return Lin.sym("v%d" % position_decl(f, f.params[pi]["d"]))
 
     L = Lin.sym("len")
 
@@ -1344,6 +1375,20 @@ def check_iterators(chk, prog, units=UNITS):
             def transfer(self, cons, x, blk=None):
                 if x.get("k") == "assign" and self.is_cur(x["ch"][0]):
                     op = x.get("op")
+                    rc_ = X.strip(x["ch"][1])
+                    if op == "=" and rc_ is not None and rc_.get("k") == "cond":
+                        # cursor = (c ? a : b): each arm under its test, joined (the arm for a NULL subject is outside the protocol)
+                        outs_ = []
+                        for truth_, arm_ in ((True, rc_["ch"][1]), (False, rc_["ch"][2])):
+                            st_ = self.refine(cons, rc_["ch"][0], truth_)
+                            if st_ is None:
+                                continue
+                            outs_.append(self.assign_sym(st_, "cur", (self.lin if index_cursor else self.pos)(arm_)))
+                        if outs_:
+                            res_ = outs_[0]
+                            for o_ in outs_[1:]:
+                                res_ = self.join(res_, o_, False)
+                            return res_
                     r = (self.lin if index_cursor else self.pos)(x["ch"][1])
                     if op == "=":
                         return self.assign_sym(cons, "cur", r)
